@@ -90,6 +90,7 @@ def interpret(r, trace):
     tr, ok = val
     if not ok: return ('unstable',)
     for t, (a, b) in enumerate(zip(trace, tr)):
+        if a is None: continue            # row excluded by the property (division/modulo by zero)
         for k, (x, y) in enumerate(zip(a, b)):
             if x != y: return ('diff', t, k, x, y)
     if len(tr) != len(trace): return ('diff', min(len(tr), len(trace)), -1, None, None)
